@@ -163,6 +163,15 @@ func runCheck(def *CheckDef, tier string, seed int64, repo string, workers int, 
 	}
 	timeout := 30000
 	cross := 0
+	jobBudget := 240 * time.Second
+	if tier == "thorough" {
+		jobBudget = 2 * time.Hour
+	}
+	if v := os.Getenv("VERIF_JOB_BUDGET_S"); v != "" {
+		if n, err := strconv.Atoi(v); err == nil {
+			jobBudget = time.Duration(n) * time.Second
+		}
+	}
 	crossTmo := 4 // seconds per cross-checked query and solver
 	if tier == "thorough" {
 		timeout = 300000
@@ -204,7 +213,7 @@ func runCheck(def *CheckDef, tier string, seed int64, repo string, workers int, 
 				mu.Unlock()
 			}()
 			for i := range next {
-				results[i] = eng.RunJob(jobs[i], sol, sym.RunOpts{OpenKnown: open, Seed: seed, SampleEvery: 3})
+				results[i] = eng.RunJob(jobs[i], sol, sym.RunOpts{OpenKnown: open, Seed: seed, SampleEvery: 3, JobBudget: jobBudget})
 				mu.Lock()
 				done++
 				if os.Getenv("VERIF_VERBOSE") != "" {
